@@ -418,6 +418,36 @@ pub fn run_supply_check(check: &str, tier: Tier, seed: u64, index: u64, scratch:
             }
         }
     }
+    if check == "C07" && !t.root.layout.steps.is_empty() && Rng::stream(seed, "c07-many").chance(1, 5) {
+        // a step with MANY functionaries (5-9 agreeing links; the threshold needs only some of them): the
+        // dissenter of the fault below is one among many, anywhere in key-id order
+        let mut mr = Rng::stream(seed, "c07-many-keys");
+        let ed_only = t.keys.iter().all(|k| k.kind.is_ed());
+        let si = mr.idx(t.root.layout.steps.len());
+        let sname = t.root.layout.steps[si].name.clone();
+        let template = t.root.files.iter().find(|f| f.name.starts_with(&format!("{}.", sname)) && matches!(f.body, crate::world::Body::Link(_))).cloned();
+        if let Some(tpl) = template {
+            let have = t.root.files.iter().filter(|f| f.name.starts_with(&format!("{}.", sname))).count();
+            let want = 5 + mr.idx(5);
+            for _ in have..want {
+                let ks = crate::keys::draw_keys(&mut mr, 1, ed_only, false)[0];
+                if t.keys.contains(&ks) {
+                    continue;
+                }
+                t.keys.push(ks);
+                let k = t.keys.len() - 1;
+                t.root.layout.key_table.push(k);
+                t.root.layout.steps[si].pubkeys.push(k);
+                let mut nf = tpl.clone();
+                nf.name = gen::link_name(&sname, &t.keys, k);
+                nf.doc.signers = vec![k];
+                nf.doc.ops.clear();
+                t.root.files.push(nf);
+            }
+            t.root.layout.steps[si].threshold = t.root.layout.steps[si].threshold.max(2 + mr.below(3) as u32);
+            t.labels.push("MANY-FUNCTIONARIES".into());
+        }
+    }
     if check == "C15" && !t.root.layout.inspect.is_empty() && !t.root.layout.steps.is_empty() && fr.chance(1, 3) {
         // an inspection that bears the name of a step (names need not be unique across the two lists)
         let si = if fr.chance(1, 2) { t.root.layout.steps.len() - 1 } else { fr.idx(t.root.layout.steps.len()) };
@@ -518,6 +548,38 @@ pub fn run_c13(tier: Tier, seed: u64, index: u64, scratch: &Scratch, rec: &mut R
         });
         t.labels.push("INSPECTION-DIGEST-MATCH".into());
     }
+    // one world in twelve (shape 9): the link directory held ANOTHER world's files a moment ago — the same
+    // paths, the same sizes, time stamps preserved, updated in place — and that world was verified by this
+    // process; the present world is verified where those files lay and, on odd repetitions, in a fresh
+    // directory: the verdicts must be the same
+    let stale_dir = !shared_sub && !digest_insp && Rng::stream(seed, "c13-shape9").chance(1, 12);
+    if stale_dir {
+        let mut sr = Rng::stream(seed, "c13-shape9-edit");
+        t.in_place = true;
+        t.fixed_mtime = true;
+        t.link_dir_style = 0;
+        t.hash_seeds.truncate(2);
+        // the earlier world: this one as it is (accepted)
+        let earlier = t.clone();
+        let _ = run_supply(&earlier, scratch);
+        RECENT.with(|h| {
+            let mut h = h.borrow_mut();
+            h.push(earlier.clone());
+            if h.len() > HISTORY_LEN {
+                h.remove(0);
+            }
+        });
+        // the present world: one link's signature value differs in one hex digit (same length)
+        let links: Vec<usize> = t.root.files.iter().enumerate().filter(|(_, f)| matches!(f.body, crate::world::Body::Link(_))).map(|(i, _)| i).collect();
+        if !links.is_empty() {
+            let fi = *sr.pick(&links);
+            t.root.files[fi].doc.ops.push(crate::world::DocOp::SigFlip { at: 0, bit: sr.idx(256) });
+            t.alt_dir_on_odd_reps = true;
+            t.labels.push("SAME-PATHS-NEW-CONTENT".into());
+            exec_supply("C13", &t, scratch, rec, seed, index);
+            return;
+        }
+    }
     let sname = t.root.layout.steps[si].name.clone();
     let template = t.root.files.iter().find(|f| f.name.starts_with(&format!("{}.", sname)) && matches!(f.body, crate::world::Body::Link(_))).cloned();
     if let (Some(tpl), true) = (template, shape < 7) {
@@ -614,12 +676,15 @@ pub fn run_c13(tier: Tier, seed: u64, index: u64, scratch: &Scratch, rec: &mut R
             let name = "dirscan".to_string();
             t.root.layout.inspect.push(crate::world::InspSpec {
                 name: name.clone(),
-                exp_mat: vec![vec!["REQUIRE".into(), "libfoo.so".into()], vec!["ALLOW".into(), "*".into()]],
+                // (a directory that is reachable under two sibling names must be recorded under both)
+                // (a directory that is reachable under several sibling names is recorded under each of them,
+                // whichever the directory lists first: the rules ask for ONE of the names)
+                exp_mat: vec![vec!["REQUIRE".into(), "libfoo.so".into()], vec!["REQUIRE".into(), (*fr.pick(&["out/app.bin", "latest/app.bin", "current/app.bin"])).into()], vec!["ALLOW".into(), "*".into()]],
                 exp_prod: vec![vec!["REQUIRE".into(), "zz-last".into()], vec!["ALLOW".into(), "*".into()]],
                 actor: crate::world::ActorScript { id: format!("root#{name}"), ops: vec![], stdout: vec![], stderr: vec![], exit: crate::world::ExitSpec::Code(0) },
             });
-            t.work_files = vec![("libfoo.so.1.0".into(), "ELF".into()), ("aaa-first".into(), "1".into()), ("zz-last".into(), "2".into()), ("middle".into(), "3".into())];
-            t.work_links = vec![("libfoo.so".into(), "libfoo.so.1.0".into()), ("libfoo.so.1".into(), "libfoo.so.1.0".into()), ("alias".into(), "middle".into())];
+            t.work_files = vec![("libfoo.so.1.0".into(), "ELF".into()), ("aaa-first".into(), "1".into()), ("zz-last".into(), "2".into()), ("middle".into(), "3".into()), ("out/app.bin".into(), "APP".into())];
+            t.work_links = vec![("libfoo.so".into(), "libfoo.so.1.0".into()), ("libfoo.so.1".into(), "libfoo.so.1.0".into()), ("alias".into(), "middle".into()), ("latest".into(), "out".into()), ("current".into(), "latest".into())];
             t.hash_seeds.truncate(6);
             t.labels.push("INSPECTION-DIR-ORDER".into());
         } else {
